@@ -162,11 +162,88 @@ func scanStores(r *kernel.Run, reg *secretReg, stores ...*simstore.Store) {
 
 // C12: a storage wrapper keeps key material out of storage and binds it to its record.
 func propC12(r *kernel.Run) {
-	if r.Tape.Draw(2) == 0 {
+	switch r.Tape.Draw(5) {
+	case 0, 1:
 		c12Flows(r)
-	} else {
+	case 2, 3:
 		c12Records(r)
+	default:
+		c12Dial(r)
 	}
+}
+
+// c12Dial: the records a node writes when it enrolls and connects through protocol.Dial (credential fetch on first
+// contact, then the authenticated handshake) with storage wrappers on both sides, against the real listener.
+func c12Dial(r *kernel.Run) {
+	tp := r.Tape
+	srv := NewWorld(r, "server", backends[tp.Draw(3)], true, false)
+	nodeW := NewWorld(r, "node", Pick2(tp, "inmem", "file"), true, false)
+	reg := &secretReg{}
+	r.Count("cfg.mode.dial", 1)
+	if _, err := rotation.RotateRootCertificates(srv.Ctx, srv.Storage, srv.Opts()...); err != nil {
+		r.HarnessErr("roots: %v", err)
+	}
+	var dopts []nodeenrollment.Option
+	useToken := tp.Draw(2) == 0
+	if useToken {
+		_, tok, err := registration.CreateServerLedActivationToken(srv.Ctx, srv.Storage, &types.ServerLedRegistrationRequest{}, srv.Opts()...)
+		if err != nil {
+			r.HarnessErr("token: %v", err)
+		}
+		dopts = append(dopts, nodeenrollment.WithActivationToken(tok))
+	}
+	c0, err := types.NewNodeCredentials(nodeW.Ctx, nodeW.Storage, nodeW.Opts(dopts...)...)
+	if err != nil {
+		r.HarnessErr("new creds: %v", err)
+	}
+	reg.add("the node certificate private key", c0.CertificatePrivateKeyPkcs8)
+	reg.add("the node encryption private key", c0.EncryptionPrivateKeyBytes)
+	if !useToken {
+		req, _ := c0.CreateFetchNodeCredentialsRequest(contextBG)
+		if _, err := registration.AuthorizeNode(srv.Ctx, srv.Storage, req, srv.Opts()...); err != nil {
+			r.HarnessErr("authorize: %v", err)
+		}
+	}
+	w := NewWire(r, srv, nil, srv.Opts())
+	w.StartAcceptor("acceptor")
+	w.Quiesce()
+	ndials := tp.Range(1, 3)
+	for i := 0; i < ndials; i++ {
+		res := w.DialHonest(fmt.Sprintf("dial%d", i), nodeW, w.Addr, dopts...)
+		w.Quiesce()
+		for _, a := range w.Take() {
+			if a.raw != nil {
+				a.raw.Close()
+			}
+		}
+		if !res.done || res.err != nil {
+			// liveness of honest enrollment is C04's and C07's business; here only what reached storage is judged
+			r.Count("probe.dial_failed", 1)
+		}
+		if res.conn != nil {
+			res.conn.Close()
+		}
+		w.Quiesce()
+		w.Take()
+		r.Count("ops.dial", 1)
+	}
+	w.Ln.Close()
+	w.Quiesce()
+	w.Take()
+	if ni, err := types.LoadNodeInformation(srv.Ctx, srv.Inner, keyID(c0.CertificatePublicKeyPkix), srv.Opts()...); err == nil {
+		reg.add("the server encryption private key", ni.ServerEncryptionPrivateKeyBytes)
+	}
+	scanStores(r, reg, srv.St, nodeW.St)
+	checkSealedFieldsAreSealed(r, srv.St, nodeW.St)
+	// what the node ends up with loads with its wrapper and not without it
+	if _, err := types.LoadNodeCredentials(nodeW.Ctx, nodeW.Inner, nodeenrollment.CurrentId, nodeW.Opts()...); err != nil {
+		r.Violate("roundtrip", "stored-record-unloadable-with-same-wrapper/NodeCredentials", "the credentials the node stored while dialing cannot be loaded with its own wrapper: %v", err)
+	}
+	if _, err := types.LoadNodeCredentials(nodeW.Ctx, nodeW.Inner, nodeenrollment.CurrentId); err == nil {
+		r.Violate("wrapper-binding", "load-succeeded/NodeCredentials/without a wrapper (after protocol.Dial)", "the credentials a node stored while dialing with a storage wrapper load without any wrapper")
+	}
+	r.FP("dial", srv.Backend, nodeW.Backend, useToken, ndials)
+	r.Count("cases", 1)
 }
 
 // c12Flows runs every flow that writes records with storage wrappers on both sides and scans what reached storage.
